@@ -387,13 +387,21 @@ Inductive fclass :=
 | FZero2       (* [0 x; 0 y]    *)
 | FZeroPos.    (* [0 x; 3 y]    *)
 
+(* the reply_on mode of a sub-message, and (hok) whether the contract's reply handler returns Ok.
+   src/wasm.rs execute_submsg: reply is invoked iff (ok /\ mode in {Success, Always}) \/ (err /\ mode in
+   {Error, Always}); a module error is absorbed iff a reply is due for it and the handler returns Ok; a module
+   success continues iff no reply is due or the handler returns Ok *)
+Inductive rmode := RNever | RSuccess | RError | RAlways.
+Definition mode_due (m : rmode) (ok : bool) : bool :=
+  match m with RNever => false | RSuccess => ok | RError => negb ok | RAlways => true end.
+
 Inductive probe :=
-| PMsg (k : mkind) (payload : N) (catch : bool)      (* catch: reply_on = Always and a reply handler that records *)
+| PMsg (k : mkind) (payload : N) (m : rmode) (hok : bool)
 | PQuery (k : qkind) (payload : N) (catch : bool)    (* catch: the contract records the error instead of failing *)
 (* WasmMsg::Execute (inst = false) / WasmMsg::Instantiate (inst = true) of a real callee with funds:
    send_payload = digest of BankMsg::Send { to_address: callee, amount: funds verbatim },
    callee_payload = digest of (nonce, info.funds) as the callee receives them *)
-| PFunded (inst : bool) (fc : fclass) (send_payload callee_payload : N) (catch : bool).
+| PFunded (inst : bool) (fc : fclass) (send_payload callee_payload : N) (m : rmode) (hok : bool).
 
 Record input := mk_input {
   i_cfg : list behaviour;     (* by slot_id *)
@@ -416,6 +424,10 @@ Record obs := mk_obs {
 Definition unk : N := 999999.
 (* pseudo-slot of the log entry / marker a funded callee makes when it runs: (8, info.sender, (nonce, info.funds), height) *)
 Definition callee_slot : N := 8.
+(* pseudo-slot of the out-of-band record the contract's reply entry point makes when it is INVOKED (whatever it
+   returns): (9, the contract, 2 * SubMsg.payload + (1 if the result handed over is Ok), height); the emitter
+   puts the probe's payload digest into SubMsg.payload *)
+Definition reply_slot : N := 9.
 
 Fixpoint nthN {A} (l : list A) (i : N) (d : A) : A :=
   match l with [] => d | x :: r => if i =? 0 then x else nthN r (N.pred i) d end.
@@ -446,14 +458,27 @@ Record mstate := mk_ms { ms_status : status; ms_i : N; ms_log : list entry; ms_k
 
 Definition is_top (o : origin) : bool := match o with Top | TopQuery => true | _ => false end.
 Definition is_empty_typed (o : origin) : bool := match o with SubEmpty _ => true | _ => false end.
-Definition p_payload (p : probe) : N := match p with PMsg _ x _ | PQuery _ x _ => x | PFunded _ _ x _ _ => x end.
-Definition p_catch (p : probe) : bool := match p with PMsg _ _ c | PQuery _ _ c | PFunded _ _ _ _ c => c end.
+Definition p_payload (p : probe) : N := match p with PMsg _ x _ _ | PQuery _ x _ => x | PFunded _ _ x _ _ _ => x end.
+Definition p_mode (p : probe) : rmode := match p with PMsg _ _ m _ | PFunded _ _ _ _ m _ => m | PQuery _ _ _ => RNever end.
+Definition p_hok (p : probe) : bool := match p with PMsg _ _ _ h | PFunded _ _ _ _ _ h => h | PQuery _ _ _ => true end.
 Definition p_is_msg (p : probe) : bool := match p with PQuery _ _ _ => false | _ => true end.
 (* the message kind a probe is emitted as (a funded probe is a CosmosMsg::Wasm) *)
-Definition p_mkind (p : probe) : option mkind := match p with PMsg k _ _ => Some k | PFunded _ _ _ _ _ => Some MWasm | PQuery _ _ _ => None end.
+Definition p_mkind (p : probe) : option mkind := match p with PMsg k _ _ _ => Some k | PFunded _ _ _ _ _ _ => Some MWasm | PQuery _ _ _ => None end.
 (* SPEC: the slot configured for the probe's kind *)
 Definition pslot (p : probe) : N :=
-  match p with PMsg k _ _ => slot_id (mslot k) | PQuery k _ _ => slot_id (qslot k) | PFunded _ _ _ _ _ => slot_id SlWasm end.
+  match p with PMsg k _ _ _ => slot_id (mslot k) | PQuery k _ _ => slot_id (qslot k) | PFunded _ _ _ _ _ _ => slot_id SlWasm end.
+
+(* is the contract's reply entry point invoked for the probe, given whether its module succeeded?  (never at
+   top level, never for a query) *)
+Definition reply_due (o : origin) (p : probe) (ok : bool) : bool := negb (is_top o) && p_is_msg p && mode_due (p_mode p) ok.
+(* a failure of the probe is absorbed: a reply is due for it and the handler returns Ok / the querying
+   contract catches the error *)
+Definition absorbs (o : origin) (p : probe) : bool :=
+  match p with PQuery _ _ c => c | _ => reply_due o p false && p_hok p end.
+(* a success of the probe lets the transaction continue: no reply is due, or the handler returns Ok *)
+Definition continues (o : origin) (p : probe) : bool := negb (reply_due o p true) || p_hok p.
+(* the probe ends the transaction, given whether its module succeeded *)
+Definition halts (o : origin) (p : probe) (ok : bool) : bool := if ok then negb (continues o p) else negb (absorbs o p).
 
 (* what dispatching one probe does: a panic, or log entries + the result its caller is given + the markers
    that stay if the result is Ok *)
@@ -483,7 +508,10 @@ Section Run.
 
   (* the caller is shown the result of a successful probe: always at top level and for queries; for a
      sub-message only if it asked for a reply *)
-  Definition sees (p : probe) : bool := match p with PQuery _ _ _ => true | _ => p_catch p || is_top (i_origin inp) end.
+  Definition sees (p : probe) : bool :=
+    match p with PQuery _ _ _ => true | _ => is_top (i_origin inp) || reply_due (i_origin inp) p true end.
+  Definition reply_entry (p : probe) (ok : bool) : entry :=
+    mk_entry reply_slot (i_sender inp) (2 * p_payload p + (if ok then 1 else 0)) (i_height inp).
 
   Definition mk_rec (sl : N) (intact : bool) (sender payload : N) : entry :=
     if intact then mk_entry sl sender payload (i_height inp) else mk_entry sl unk unk unk.
@@ -523,13 +551,13 @@ Section Run.
         | XBail => EDone [] RErr []
         | XTo sl intact => module_effect sl intact false 0 x
         end
-    | PMsg k x _ =>
+    | PMsg k x _ _ =>
         match route_msg k with
         | XPanic => EPanic
         | XBail => EDone [] RErr []
         | XTo sl intact => module_effect sl intact true (i_sender inp) x
         end
-    | PFunded _ fc sp cp _ =>
+    | PFunded _ fc sp cp _ _ =>
         match route_msg MWasm with
         | XPanic => EPanic
         | XBail => EDone [] RErr []
@@ -548,15 +576,17 @@ Section Run.
         else match effect_of p with
              | EPanic => stop s Panicked
              | EDone es r ks =>
-                 match r with
-                 | ROk d =>
-                     mk_ms Running (N.succ (ms_i s)) (ms_log s ++ es) (ms_keys s ++ ks)
-                       (if sees p then ms_seen s ++ [(ms_i s, ROk d)] else ms_seen s)
-                 | _ =>
-                     (* whatever the probe wrote is rolled back with the sub-transaction / the transaction *)
-                     if p_catch p then mk_ms Running (N.succ (ms_i s)) (ms_log s ++ es) (ms_keys s) (ms_seen s ++ [(ms_i s, RErr)])
-                     else mk_ms Aborted (ms_i s) (ms_log s ++ es) (ms_keys s) (ms_seen s)
-                 end
+                 let o := i_origin inp in
+                 let log' := ms_log s ++ es ++ (if reply_due o p (is_ok r) then [reply_entry p (is_ok r)] else []) in
+                 if halts o p (is_ok r) then mk_ms Aborted (ms_i s) log' (ms_keys s) (ms_seen s)
+                 else match r with
+                      | ROk d =>
+                          mk_ms Running (N.succ (ms_i s)) log' (ms_keys s ++ ks)
+                            (if sees p then ms_seen s ++ [(ms_i s, ROk d)] else ms_seen s)
+                      | _ =>
+                          (* whatever the probe wrote is rolled back with the sub-transaction *)
+                          mk_ms Running (N.succ (ms_i s)) log' (ms_keys s) (ms_seen s ++ [(ms_i s, RErr)])
+                      end
              end
     | _ => s
     end.
@@ -632,7 +662,7 @@ Qed.
 
 Lemma effect_ext R1 R2 inp p : routes_agree_on R1 R2 (i_probes inp) -> In p (i_probes inp) -> effect_of R1 inp p = effect_of R2 inp p.
 Proof.
-  intros H Hp. destruct p as [k x c|k x c|ins fc sp cp c]; cbn [effect_of].
+  intros H Hp. destruct p as [k x m h|k x c|ins fc sp cp m h]; cbn [effect_of].
   - rewrite (route_msg_ext R1 R2 inp k H). reflexivity.
   - destruct H as (_ & _ & Hq). specialize (Hq _ Hp). cbn in Hq. rewrite Hq. reflexivity.
   - rewrite (route_msg_ext R1 R2 inp MWasm H). unfold funded_effect. destruct H as (Hx & _ & _). rewrite Hx. reflexivity.
@@ -653,7 +683,7 @@ Qed.
 Lemma run_ext_all R1 R2 inp :
   (forall k, rx R1 k = rx R2 k) -> (forall k, rq R1 k = rq R2 k) -> (forall k, rl R1 k = rl R2 k) -> run R1 inp = run R2 inp.
 Proof.
-  intros Hx Hq Hl. apply run_ext. split; [exact Hx|]. split; [exact Hl|]. intros [k x c|k x c|ins fc sp cp c] _; auto.
+  intros Hx Hq Hl. apply run_ext. split; [exact Hx|]. split; [exact Hl|]. intros [k x m h|k x c|ins fc sp cp m h] _; auto.
 Qed.
 
 (* ------------------------------------------------------------------------------------------ *)
@@ -668,29 +698,38 @@ Definition p_sender (inp : input) (p : probe) : N := if p_is_msg p then i_sender
    configured BANK module's verdict on the Send whenever the funds vector is non-empty *)
 Definition answer (inp : input) (p : probe) : res :=
   match p with
-  | PFunded _ fc sp _ _ => if f_nonempty fc && negb (is_ok (bank_result (bank_beh inp) fc sp)) then RErr else ROk None
+  | PFunded _ fc sp _ _ _ => if f_nonempty fc && negb (is_ok (bank_result (bank_beh inp) fc sp)) then RErr else ROk None
   | _ => mod_result (beh inp p) (p_payload p)
   end.
-(* the probe ends the transaction: its module fails and nobody catches the failure *)
-Definition stops (inp : input) (p : probe) : bool := negb (is_ok (answer inp p)) && negb (p_catch p).
+(* the probe ends the transaction: its module fails and the failure is not absorbed (no reply is due for an
+   error -- modes Never and Success --, or the reply handler fails; the querying contract does not catch), or
+   its module succeeds and the reply handler that is due fails *)
+Definition stops (inp : input) (p : probe) : bool := halts (i_origin inp) p (is_ok (answer inp p)).
+(* the contract's reply entry point is invoked for the probe *)
+Definition replied (inp : input) (p : probe) : bool := reply_due (i_origin inp) p (is_ok (answer inp p)).
 (* the record the configured recording module makes of the probe: sender, payload, block intact *)
 Definition entry_of (inp : input) (p : probe) : entry :=
   mk_entry (pslot p) (p_sender inp p) (p_payload p) (i_height inp).
 (* all records a reached probe leaves: for a funded wasm message, exactly one Send record of the recording
    bank (sender = the payer, the coins verbatim) iff the funds are non-empty, and AFTER it the callee's own
    record iff the bank agreed *)
-Definition entries_of (inp : input) (p : probe) : list entry :=
+Definition mod_entries_of (inp : input) (p : probe) : list entry :=
   match p with
-  | PFunded _ fc sp cp _ =>
+  | PFunded _ fc sp cp _ _ =>
       (if f_nonempty fc && records (bank_beh inp) then [mk_entry (slot_id SlBank) (i_sender inp) sp (i_height inp)] else []) ++
       (if is_ok (answer inp p) then [mk_entry callee_slot (i_sender inp) cp (i_height inp)] else [])
   | _ => if records (beh inp p) then [entry_of inp p] else []
   end.
+(* ... followed by the record of the reply entry point iff a reply is due: (ok /\ mode in {Success, Always})
+   \/ (err /\ mode in {Error, Always}) *)
+Definition entries_of (inp : input) (p : probe) : list entry :=
+  mod_entries_of inp p ++
+  (if replied inp p then [reply_entry inp p (is_ok (answer inp p))] else []).
 Definition keys_of (inp : input) (p : probe) : list (N * N) :=
   match p with
-  | PFunded _ fc sp cp _ =>
+  | PFunded _ fc sp cp _ _ =>
       (if f_nonempty fc && records (bank_beh inp) then [(slot_id SlBank, sp)] else []) ++ [(callee_slot, cp)]
-  | PMsg _ x _ => if records (beh inp p) then [(pslot p, x)] else []
+  | PMsg _ x _ _ => if records (beh inp p) then [(pslot p, x)] else []
   | PQuery _ _ _ => []
   end.
 
@@ -724,22 +763,22 @@ Qed.
 
 Lemma answer_cases inp p : (exists d, answer inp p = ROk d) \/ answer inp p = RErr.
 Proof.
-  destruct p as [k x c|k x c|ins fc sp cp c]; cbn [answer]; try (unfold mod_result; destruct (beh inp _); eauto).
+  destruct p as [k x m h|k x c|ins fc sp cp m h]; cbn [answer]; try (unfold mod_result; destruct (beh inp _); eauto).
   destruct (f_nonempty fc && negb (is_ok (bank_result (bank_beh inp) fc sp))); eauto.
 Qed.
 
 (* the effect of a probe under the SPEC routing *)
 Lemma spec_effect inp p :
   In p (i_probes inp) -> aborts_lift inp p = false ->
-  exists ks, effect_of spec_routes inp p = EDone (entries_of inp p) (answer inp p) ks /\
+  exists ks, effect_of spec_routes inp p = EDone (mod_entries_of inp p) (answer inp p) ks /\
              (is_ok (answer inp p) = true -> ks = keys_of inp p).
 Proof.
-  intros Hin Ha. destruct p as [k x c|k x c|ins fc sp cp c]; cbn [effect_of].
-  - rewrite (spec_route_msg inp (PMsg k x c) k Hin eq_refl Ha eq_refl).
+  intros Hin Ha. destruct p as [k x m h|k x c|ins fc sp cp m h]; cbn [effect_of].
+  - rewrite (spec_route_msg inp (PMsg k x m h) k Hin eq_refl Ha eq_refl).
     unfold module_effect, mk_rec. eexists. split; [reflexivity|]. intros _. reflexivity.
   - cbn [spec_routes rq]. unfold module_effect, mk_rec. eexists. split; [reflexivity|]. intros _. reflexivity.
-  - rewrite (spec_route_msg inp (PFunded ins fc sp cp c) MWasm Hin eq_refl Ha eq_refl).
-    cbn [mslot]. rewrite N.eqb_refl. cbn [andb]. unfold funded_effect. cbn [spec_routes rx mslot entries_of answer keys_of].
+  - rewrite (spec_route_msg inp (PFunded ins fc sp cp m h) MWasm Hin eq_refl Ha eq_refl).
+    cbn [mslot]. rewrite N.eqb_refl. cbn [andb]. unfold funded_effect. cbn [spec_routes rx mslot mod_entries_of answer keys_of].
     fold (bank_beh inp). unfold mk_rec.
     destruct (f_nonempty fc); cbn [andb].
     + destruct (is_ok (bank_result (bank_beh inp) fc sp)) eqn:Eb; cbn [negb is_ok].
@@ -753,14 +792,13 @@ Definition spec_step (inp : input) (s : mstate) (p : probe) : mstate :=
   if aborts_lift inp p then stop s Panicked
   else
     let log' := ms_log s ++ entries_of inp p in
-    match answer inp p with
-    | ROk d =>
-        mk_ms Running (N.succ (ms_i s)) log' (ms_keys s ++ keys_of inp p)
-          (if sees inp p then ms_seen s ++ [(ms_i s, ROk d)] else ms_seen s)
-    | _ =>
-        if p_catch p then mk_ms Running (N.succ (ms_i s)) log' (ms_keys s) (ms_seen s ++ [(ms_i s, RErr)])
-        else mk_ms Aborted (ms_i s) log' (ms_keys s) (ms_seen s)
-    end.
+    if stops inp p then mk_ms Aborted (ms_i s) log' (ms_keys s) (ms_seen s)
+    else match answer inp p with
+         | ROk d =>
+             mk_ms Running (N.succ (ms_i s)) log' (ms_keys s ++ keys_of inp p)
+               (if sees inp p then ms_seen s ++ [(ms_i s, ROk d)] else ms_seen s)
+         | _ => mk_ms Running (N.succ (ms_i s)) log' (ms_keys s) (ms_seen s ++ [(ms_i s, RErr)])
+         end.
 
 Lemma step_spec_step inp s p :
   In p (i_probes inp) -> ms_status s = Running -> step spec_routes inp s p = spec_step inp s p.
@@ -768,6 +806,8 @@ Proof.
   intros Hin Hs. unfold step, spec_step. rewrite Hs. fold (aborts_lift inp p).
   destruct (aborts_lift inp p) eqn:Ea; [reflexivity|].
   destruct (spec_effect inp p Hin Ea) as (ks & -> & Hk).
+  cbn zeta. unfold stops, entries_of, replied, reply_entry.
+  destruct (halts (i_origin inp) p (is_ok (answer inp p))); [reflexivity|].
   destruct (answer inp p) as [d| |]; try reflexivity. rewrite (Hk eq_refl). reflexivity.
 Qed.
 
@@ -798,12 +838,10 @@ Proof.
     assert (Hps' : forall q, In q ps -> In q (i_probes inp)) by (intros q Hq; apply Hps; right; exact Hq).
     unfold spec_step. destruct (aborts_lift inp p) eqn:Ea.
     + rewrite fold_stopped by (cbn; discriminate). unfold log_of. cbn. rewrite app_nil_r. reflexivity.
-    + unfold stops. unfold log_of at 1. cbn [flat_map]. fold (log_of inp (if negb (is_ok (answer inp p)) && negb (p_catch p) then [] else reached inp ps)).
-      destruct (answer_cases inp p) as [[d E]|E]; rewrite E; cbn [is_ok negb andb].
-      * rewrite IH by (auto). cbn [ms_log]. rewrite <- app_assoc. reflexivity.
-      * destruct (p_catch p); cbn [negb].
-        -- rewrite IH by (auto). cbn [ms_log]. rewrite <- app_assoc. reflexivity.
-        -- rewrite fold_stopped by (cbn; discriminate). cbn [ms_log]. unfold log_of. cbn [flat_map]. rewrite app_nil_r. reflexivity.
+    + unfold log_of at 1. cbn [flat_map]. fold (log_of inp (if stops inp p then [] else reached inp ps)).
+      destruct (stops inp p).
+      * rewrite fold_stopped by (cbn; discriminate). cbn [ms_log]. unfold log_of. cbn [flat_map]. rewrite app_nil_r. reflexivity.
+      * destruct (answer inp p) as [d| |]; rewrite IH by (auto); cbn [ms_log]; rewrite <- app_assoc; reflexivity.
 Qed.
 
 Lemma fold_aborts inp ps : forall s,
@@ -816,14 +854,10 @@ Proof.
   assert (Hps' : forall q, In q ps -> In q (i_probes inp)) by (intros r Hr; apply Hps; right; exact Hr).
   unfold spec_step. assert (Ea : aborts_lift inp p = false) by (unfold aborts_lift; rewrite Hl; apply andb_false_r). rewrite Ea.
   destruct (stops inp p) eqn:Es.
-  - unfold stops in Es. apply andb_true_iff in Es as [E1 E2]. apply negb_true_iff in E1, E2.
-    destruct (answer inp p); try discriminate; rewrite E2; rewrite fold_stopped by (cbn; discriminate); reflexivity.
+  - rewrite fold_stopped by (cbn; discriminate). reflexivity.
   - assert (Hex : exists r, In r ps /\ stops inp r = true).
     { destruct Hq as [<-|Hq]; [congruence|]. exists q. auto. }
-    unfold stops in Es.
-    destruct (answer_cases inp p) as [[d E]|E]; rewrite E in *; cbn [is_ok negb andb] in Es.
-    + apply IH; auto.
-    + apply negb_false_iff in Es. rewrite Es. apply IH; auto.
+    destruct (answer inp p) as [d| |]; apply IH; auto.
 Qed.
 
 Lemma fold_commits inp ps : forall s,
@@ -838,13 +872,12 @@ Proof.
     assert (Hps' : forall q, In q ps -> In q (i_probes inp)) by (intros r Hr; apply Hps; right; exact Hr).
     assert (Hno' : forall q, In q ps -> stops inp q = false) by (intros r Hr; apply Hno; right; exact Hr).
     unfold spec_step. assert (Ea : aborts_lift inp p = false) by (unfold aborts_lift; rewrite Hl; apply andb_false_r). rewrite Ea.
-    specialize (Hno p (or_introl eq_refl)). unfold stops in Hno.
-    destruct (answer_cases inp p) as [[d E]|E]; rewrite E in *; cbn [is_ok negb andb orb] in *.
+    rewrite (Hno p (or_introl eq_refl)).
+    destruct (answer_cases inp p) as [[d E]|E]; rewrite E; cbn [is_ok negb orb].
     + match goal with |- context [fold_left _ ps ?s1] => destruct (IH s1 Hps' eq_refl Hl Hno') as [I1 I2] end.
       cbn zeta. split; [exact I1|]. rewrite I2. cbn [ms_seen ms_i]. rewrite orb_false_r.
       destruct (sees inp p); [rewrite <- app_assoc|]; reflexivity.
-    + apply negb_false_iff in Hno. rewrite Hno.
-      match goal with |- context [fold_left _ ps ?s1] => destruct (IH s1 Hps' eq_refl Hl Hno') as [I1 I2] end.
+    + match goal with |- context [fold_left _ ps ?s1] => destruct (IH s1 Hps' eq_refl Hl Hno') as [I1 I2] end.
       cbn zeta. split; [exact I1|]. rewrite I2. cbn [ms_seen ms_i]. rewrite orb_true_r, <- app_assoc. reflexivity.
 Qed.
 
@@ -866,28 +899,47 @@ Qed.
 Lemma L4_sender_is_emitter inp p e :
   In e (entries_of inp p) -> e_sender e = p_sender inp p /\ e_height e = i_height inp.
 Proof.
-  destruct p as [k x c|k x c|ins fc sp cp c]; cbn [entries_of].
-  - destruct (records _); [|intros []]. intros [<-|[]]. auto.
-  - destruct (records _); [|intros []]. intros [<-|[]]. auto.
-  - intros H. apply in_app_or in H as [H|H].
-    + destruct (_ && _); [|destruct H]. destruct H as [<-|[]]. auto.
-    + destruct (is_ok _); [|destruct H]. destruct H as [<-|[]]. auto.
+  unfold entries_of. intros H. apply in_app_or in H as [H|H].
+  - destruct p as [k x m h|k x c|ins fc sp cp m h]; cbn [mod_entries_of] in H.
+    + destruct (records _); [|destruct H]. destruct H as [<-|[]]. auto.
+    + destruct (records _); [|destruct H]. destruct H as [<-|[]]. auto.
+    + apply in_app_or in H as [H|H].
+      * destruct (_ && _); [|destruct H]. destruct H as [<-|[]]. auto.
+      * destruct (is_ok _); [|destruct H]. destruct H as [<-|[]]. auto.
+  - destruct (replied inp p) eqn:E; [|destruct H]. destruct H as [<-|[]]. cbn.
+    unfold replied, reply_due in E. apply andb_true_iff in E as [E _]. apply andb_true_iff in E as [_ E].
+    unfold p_sender. rewrite E. auto.
+Qed.
+
+(* the reply table, spelled out: the reply entry point is invoked iff (ok /\ mode in {Success, Always}) \/
+   (err /\ mode in {Error, Always}) -- never at top level, never for a query; a probe ends the transaction iff
+   its module fails and no Ok-returning reply is due for the error, or it succeeds and a due reply fails *)
+Lemma L4_reply_table inp p :
+  p_is_msg p = true -> is_top (i_origin inp) = false ->
+  let ok := is_ok (answer inp p) in
+  replied inp p = match p_mode p with RNever => false | RSuccess => ok | RError => negb ok | RAlways => true end /\
+  stops inp p = (if ok then replied inp p && negb (p_hok p) else negb (replied inp p && p_hok p)).
+Proof.
+  intros Hm Ht. cbn zeta. unfold stops, replied, halts, continues, absorbs, reply_due. rewrite Hm, Ht. cbn [negb andb].
+  split; [reflexivity|].
+  destruct p as [k x m h|k x c|ins fc sp cp m h]; try discriminate;
+    destruct (is_ok _); cbn [p_mode p_hok p_is_msg andb negb]; destruct (mode_due m _), h; reflexivity.
 Qed.
 
 (* funds: the recording bank logs exactly one Send (payer, coins verbatim) iff the vector is non-empty, before
    the callee; the callee runs iff the vector is empty or the bank agreed *)
-Lemma L4_funds_go_through_the_bank inp ins fc sp cp c :
-  let p := PFunded ins fc sp cp c in
+Lemma L4_funds_go_through_the_bank inp ins fc sp cp m h :
+  let p := PFunded ins fc sp cp m h in
   let send := mk_entry (slot_id SlBank) (i_sender inp) sp (i_height inp) in
   let callee := mk_entry callee_slot (i_sender inp) cp (i_height inp) in
-  (f_nonempty fc = false -> entries_of inp p = [callee] /\ answer inp p = ROk None) /\
+  (f_nonempty fc = false -> mod_entries_of inp p = [callee] /\ answer inp p = ROk None) /\
   (f_nonempty fc = true -> records (bank_beh inp) = true ->
-     entries_of inp p = send :: (if is_ok (bank_result (bank_beh inp) fc sp) then [callee] else []) /\
+     mod_entries_of inp p = send :: (if is_ok (bank_result (bank_beh inp) fc sp) then [callee] else []) /\
      answer inp p = (if is_ok (bank_result (bank_beh inp) fc sp) then ROk None else RErr)).
 Proof.
   cbn zeta. split.
-  - intros E. cbn [entries_of answer]. rewrite E. cbn. auto.
-  - intros E Hr. cbn [entries_of answer]. rewrite E, Hr. cbn [andb].
+  - intros E. cbn [mod_entries_of answer]. rewrite E. cbn. auto.
+  - intros E Hr. cbn [mod_entries_of answer]. rewrite E, Hr. cbn [andb].
     destruct (is_ok (bank_result (bank_beh inp) fc sp)); cbn; auto.
 Qed.
 
@@ -927,7 +979,7 @@ Qed.
 Lemma answer_spec inp p :
   answer inp p =
   match p with
-  | PFunded _ fc sp _ _ => if f_nonempty fc && negb (is_ok (bank_result (bank_beh inp) fc sp)) then RErr else ROk None
+  | PFunded _ fc sp _ _ _ => if f_nonempty fc && negb (is_ok (bank_result (bank_beh inp) fc sp)) then RErr else ROk None
   | _ => match beh inp p with Accepting => ROk None | RecOk => ROk (Some (p_payload p)) | Failing | RecErr | Keeper => RErr end
   end.
 Proof. destruct p; reflexivity. Qed.
